@@ -57,6 +57,9 @@ def gen_recipe(rng: random.Random) -> dict[str, Any]:
     # six variables (2x3 / 3x2 grids): inner regions with several partitionings, i.e. sum layers
     # of arity > 1 *and* more than one input unit - with <= 4 variables only the root mixes
     rg = recipes.gen_rg(rng, max_vars=6 if rng.random() < 0.4 else 5)
+    # (circuits over 130 variables were tried here too: sampling them through the folded address
+    #  book takes minutes per call, so they are only part of the W-A workloads)
+    long_ = False
     if r < 0.55:
         rec = recipes.gen_rg_circuit(rng, monotonic=True, normalized=True, rg=rg,
                                      kinds=["categorical", "categorical", "binomial"],
@@ -77,7 +80,13 @@ def gen_recipe(rng: random.Random) -> dict[str, Any]:
         # the number of unit combinations enumerated is ni ** num_vars
         rec["ni"] = min(rec["ni"], 3)
         recipes.fix_units(rec)
-    if rng.random() < 0.25:
+    if long_:
+        rec["ni"] = min(rec["ni"], 2)
+        rec["ns"] = min(rec["ns"], 2)
+        recipes.fix_units(rec)
+        if rec["input"]["type"] not in ("gaussian_sig", "categorical_sparse"):
+            rec["input"] = {"type": "categorical_sparse", "k": 3, "onehot": True, "shift": rng.randrange(3)}
+    if not long_ and rng.random() < 0.25:
         # not region-graph shaped: a DAG whose inputs / sub-circuits have several parents
         from . import dag_recipes
 
@@ -85,7 +94,7 @@ def gen_recipe(rng: random.Random) -> dict[str, Any]:
         dag.update({"rg": {"algo": "dag"}, "sp": "dag", "nary": "dense", "ni": dag["units"],
                     "ns": dag["units"]})
         rec = dag
-    if rec["kind"] == "rg" and rec["input"]["type"] == "categorical" and rng.random() < 0.12:
+    if rec["kind"] == "rg" and not long_ and rec["input"]["type"] == "categorical" and rng.random() < 0.12:
         # wide domains: two variables with well over a hundred categories each
         rec["rg"] = {"algo": rng.choice(["rbt", "ff"]), "n": 2, "reps": rng.choice([1, 2]),
                      "seed": rng.randrange(10**6)}
@@ -110,6 +119,8 @@ def generate(run_seed: int, tier: str) -> dict[str, Any]:
     if nvars <= 3 and rec["ni"] <= 2 and rng.random() < (0.08 if tier == "quick" else 0.2):
         # very large sample counts (tiny circuits only: the padded samples are (F, K, N, D))
         big = big + [200_001, 250_000, 400_003]
+    if nvars > 100:
+        big = [64, 200]  # the padded samples are (F, K, N, D): keep N small for 130 variables
     ops: list[dict[str, Any]] = [{"op": "compile", "seed": _seed(rng)}]
     n_ops = rng.randint(3, 7) if tier == "quick" else rng.randint(4, 12)
     for _ in range(n_ops):
@@ -123,7 +134,7 @@ def generate(run_seed: int, tier: str) -> dict[str, Any]:
             ops.append({"op": "reset", "seed": _seed(rng)})
         else:
             ops.append({"op": "recompile", "flags": _flags(rng), "seed": _seed(rng)})
-    if not any(o["op"] == "sample" and o["n"] >= 1000 for o in ops):
+    if nvars <= 100 and not any(o["op"] == "sample" and o["n"] >= 1000 for o in ops):
         ops.append({"op": "sample", "n": rng.choice(big), "seed": _seed(rng)})
     return {"prop": "C15", "run_seed": run_seed, "tier": tier, "config": cfg, "recipe": rec,
             "ops": ops, "hash_seed": H(run_seed, "hash")}
@@ -335,7 +346,16 @@ class WorldC:
         self.tr.count("samples", n)
         ex = exact_distribution(cc, self.rec, semiring)
         if ex is None:
+            # too many joint states to enumerate (e.g. 130 variables): the frequency test is
+            # out of reach, shape / domain / attribution are not
             self.tr.count("sample:too-many-states")
+            inp = self.rec["input"]
+            if inp["type"] == "gaussian_sig":
+                self._attribution(s, "gaussian_sig", int(self.rec["ni"]), D, n)
+            else:
+                kd = recipes.input_domain(inp)
+                if kd[0] == "discrete":
+                    self._attribution(s, "discrete", kd[1], D, n)
             return "unchecked"
         tot = float(ex.probs.sum())
         ntol = 1e-4 if self.plan["config"].get("dtype") == "float32" else 1e-6
@@ -344,40 +364,7 @@ class WorldC:
             # outside the domain of C15
             self.tr.count("sample:circuit-not-normalised")
             return "not-normalised"
-        if ex.kind == "gaussian_sig":
-            r = np.rint(s)
-            # Q3: column v must carry the signature of variable v (mean 10*v + u, sigma 1e-3)
-            unit = r - 10.0 * np.arange(D)[None, :]
-            if (np.abs(s - r) > 0.1).any() or (unit < 0).any() or (unit >= ex.k).any():
-                j = int(np.argmax((np.abs(s - r) > 0.1).any(axis=1) | (unit < 0).any(axis=1) | (unit >= ex.k).any(axis=1)))
-                raise Violation(
-                    "Q3", f"row {j} = {s[j].round(3).tolist()}: some column does not carry the "
-                          f"signature of its own variable (expected 10*v + unit, unit < {ex.k}) [{self._where()}]")
-            self.tr.count("cmp:Q3", n)
-            rows = unit.astype(np.int64)
-        else:
-            r = np.rint(s)
-            if np.abs(s - r).max() > 0 or r.min() < 0 or r.max() >= ex.k:
-                raise Violation(
-                    "Q1", f"samples of a discrete circuit are not integers in [0, {ex.k}) "
-                          f"(range [{s.min()}, {s.max()}]) [{self._where()}]")
-            rows = r.astype(np.int64)
-            if self.rec["input"].get("onehot"):
-                # Q3: unit u of variable v only ever emits (v + u + shift) % k
-                k = ex.k
-                shift = int(self.rec["input"].get("shift", 0))
-                ni = int(self.rec["ni"])
-                allowed = np.zeros((D, k), dtype=bool)
-                for v in range(D):
-                    for u in range(ni):
-                        allowed[v, (v + u + shift) % k] = True
-                ok = allowed[np.arange(D)[None, :], rows]
-                self.tr.count("cmp:Q3", n)
-                if not ok.all():
-                    j = int(np.argmin(ok.all(axis=1)))
-                    raise Violation(
-                        "Q3", f"row {j} = {rows[j].tolist()}: a column carries a value its variable "
-                              f"cannot emit [{self._where()}]")
+        rows = self._attribution(s, ex.kind, ex.k, D, n)
         # Q2 support
         mult = ex.k ** np.arange(D - 1, -1, -1)
         ptab = np.zeros(ex.k ** D)
@@ -406,6 +393,44 @@ class WorldC:
                 if float(ex.probs.max()) > 1.5 / len(ex.probs) or (ex.probs <= 0).any():
                     self.nonuniform = True
         return "ok"
+
+    def _attribution(self, s: np.ndarray, kind: str, kdom: int, D: int, n: int) -> np.ndarray:
+        """Q1 (domain) and Q3 (attribution): returns the samples as integer outcome rows."""
+        if kind == "gaussian_sig":
+            r = np.rint(s)
+            # Q3: column v must carry the signature of variable v (mean 10*v + u, sigma 1e-3)
+            unit = r - 10.0 * np.arange(D)[None, :]
+            if (np.abs(s - r) > 0.1).any() or (unit < 0).any() or (unit >= kdom).any():
+                j = int(np.argmax((np.abs(s - r) > 0.1).any(axis=1) | (unit < 0).any(axis=1) | (unit >= kdom).any(axis=1)))
+                raise Violation(
+                    "Q3", f"row {j} = {s[j].round(3).tolist()}: some column does not carry the "
+                          f"signature of its own variable (expected 10*v + unit, unit < {kdom}) [{self._where()}]")
+            self.tr.count("cmp:Q3", n)
+            rows = unit.astype(np.int64)
+        else:
+            r = np.rint(s)
+            if np.abs(s - r).max() > 0 or r.min() < 0 or r.max() >= kdom:
+                raise Violation(
+                    "Q1", f"samples of a discrete circuit are not integers in [0, {kdom}) "
+                          f"(range [{s.min()}, {s.max()}]) [{self._where()}]")
+            rows = r.astype(np.int64)
+            if self.rec["input"].get("onehot"):
+                # Q3: unit u of variable v only ever emits (v + u + shift) % k
+                k = kdom
+                shift = int(self.rec["input"].get("shift", 0))
+                ni = int(self.rec["ni"])
+                allowed = np.zeros((D, k), dtype=bool)
+                for v in range(D):
+                    for u in range(ni):
+                        allowed[v, (v + u + shift) % k] = True
+                ok = allowed[np.arange(D)[None, :], rows]
+                self.tr.count("cmp:Q3", n)
+                if not ok.all():
+                    j = int(np.argmin(ok.all(axis=1)))
+                    raise Violation(
+                        "Q3", f"row {j} = {rows[j].tolist()}: a column carries a value its variable "
+                              f"cannot emit [{self._where()}]")
+        return rows
 
     def _where(self) -> str:
         r = self.rec
